@@ -42,15 +42,15 @@ ASSUMPTIONS = [
     'repetition counts are small positive integers in generated cases (the theorems are for all counts)',
 ]
 MANIFEST = {
-    'level_text': 'Proof: 35 unbounded theorems over an executable Coq model of waveforms.py: vectorised sampler = pointwise '
+    'level_text': 'Proof: 38 unbounded theorems over an executable Coq model of waveforms.py: vectorised sampler = pointwise '
                   'meaning on every sorted grid (all 11 classes); constant_value sound on [0,duration) for all classes; '
                   '__eq__ => same behaviour; reversed()/double reversal laws; totality REFUTED on the unchanged code '
                   '(sequence/repetition at t=duration, reversal around them, chained parallel+linear KeyError) and proved under '
                   'executable guards; constant-folding branches of from_mapping/from_repetition_count/from_functor/'
                   'from_to_reverse/from_sequence (incl. flattening)/from_operator/from_table and from_parallel sample like the plain composite; '
-                  'history independence without transforming nodes. _partial (only tested through the denotational oracle): '
-                  'table de-duplication (refuted for a triple final time point), from_transformation, get_subset in general, histories with '
-                  'transforming nodes. The model (incl. a state machine for the TransformingWaveform cache) is tied to /repo by '
+                  'history independence (no transforming nodes: any history; linear-free transformations: arrays not mutated); code meaning = DESIGN 4.4 denotation for leaf-only reversal. _partial (only tested through the denotational oracle): '
+                  'table de-duplication (refuted for a triple final time point), from_transformation with linear parts, get_subset in general, histories with '
+                  'linear transformations. The model (incl. a state machine for the TransformingWaveform cache) is tied to /repo by '
                   'an exact correspondence check and an independent denotation (DESIGN 4.4) on generated waveform trees.',
     'level_note': 'Trusted: Coq kernel, numpy/sympy semantics as modelled, harness (py_build, printers), Python hash. Float '
                   'rounding not modelled (dyadic inputs). 6 known findings (2 more were repaired in /repo).',
@@ -294,6 +294,8 @@ def run_impl(case):
             out = np.full(len(ts), np.nan) if use_out else None   # unassigned entries stay NaN
             def one_call():
                 res = w.get_sampled(CH[c], ts, out) if use_out else w.get_sampled(CH[c], ts)
+                if use_out and res is not out:
+                    raise RuntimeError('get_sampled did not return the supplied output array')
                 keep.append(res)          # results stay alive: Waveform.__sampled_cache is a WeakValueDictionary
                 return _vals(res)
             g = _guard(one_call)
